@@ -129,38 +129,110 @@ structure Margins where
   bottom : Nat
   deriving Repr, DecidableEq
 
-/-- positive rational flex factor `num / den` (`den > 0`) -/
-structure Q where
-  num : Nat
-  den : Nat
+/-- An `f64` as far as the flex and the scroll-bar arithmetic go: an exact rational `num / den`
+(`den > 0`; the code's values are exact on the grid stated in the header) or one of the special values.
+Zero is always `+0.0` here: the totals are sums and differences, which never produce `-0.0`, and a zero
+product or quotient is only ever rounded and cast (to 0) afterwards. -/
+inductive F64 where
+  | fin (num : Int) (den : Nat)
+  | pinf
+  | ninf
+  | nan
   deriving Repr, DecidableEq
 
-def Q.zero : Q := ⟨0, 1⟩
-def Q.add (a b : Q) : Q := ⟨a.num * b.den + b.num * a.den, a.den * b.den⟩
-def Q.sub (a b : Q) : Q := ⟨a.num * b.den - b.num * a.den, a.den * b.den⟩
-def Q.pos (a : Q) : Bool := decide (0 < a.num ∧ 0 < a.den)
+namespace F64
+def ofNat (n : Nat) : F64 := .fin n 1
+def zero : F64 := .fin 0 1
+def neg : F64 → F64
+  | .fin a b => .fin (-a) b
+  | .pinf => .ninf
+  | .ninf => .pinf
+  | .nan => .nan
+def add : F64 → F64 → F64
+  | .fin a b, .fin c d => .fin (a * d + c * b) (b * d)
+  | .nan, _ => .nan
+  | _, .nan => .nan
+  | .pinf, .ninf => .nan
+  | .ninf, .pinf => .nan
+  | .pinf, _ => .pinf
+  | _, .pinf => .pinf
+  | .ninf, _ => .ninf
+  | _, .ninf => .ninf
+def sub (x y : F64) : F64 := x.add y.neg
+/-- sign of a value: `1`, `0`, `-1` (`nan` counts as 0 and is handled before) -/
+def sgn : F64 → Int
+  | .fin a _ => if a > 0 then 1 else if a < 0 then -1 else 0
+  | .pinf => 1
+  | .ninf => -1
+  | .nan => 0
+def ofSign (s : Int) : F64 := if s > 0 then .pinf else if s < 0 then .ninf else .nan
+def mul : F64 → F64 → F64
+  | .fin a b, .fin c d => .fin (a * c) (b * d)
+  | .nan, _ => .nan
+  | _, .nan => .nan
+  | x, y => ofSign (x.sgn * y.sgn)          -- an infinity is involved: `0 * inf = NaN`
+/-- `x / y`; a finite zero divisor is `+0.0` -/
+def div : F64 → F64 → F64
+  | .nan, _ => .nan
+  | _, .nan => .nan
+  | .fin a b, .fin c d =>
+    if c = 0 then ofSign (if a > 0 then 1 else if a < 0 then -1 else 0)
+    else if c > 0 then .fin (a * d) (b * c.toNat) else .fin (-(a * d)) (b * (-c).toNat)
+  | .fin _ _, _ => .fin 0 1                 -- finite / infinite
+  | x, .fin c _ => ofSign (x.sgn * (if c < 0 then -1 else 1))
+  | _, _ => .nan                            -- infinite / infinite
+/-- `x > 0.0` -/
+def gt0 : F64 → Bool
+  | .fin a _ => decide (a > 0)
+  | .pinf => true
+  | _ => false
+def isFinite : F64 → Bool
+  | .fin _ _ => true
+  | _ => false
+/-- `x < y` (false when a NaN is involved) -/
+def lt : F64 → F64 → Bool
+  | .nan, _ => false
+  | _, .nan => false
+  | .fin a b, .fin c d => decide (a * d < c * b)
+  | .ninf, .ninf => false
+  | .ninf, _ => true
+  | _, .ninf => false
+  | .pinf, _ => false
+  | _, .pinf => true
+/-- `f64::clamp(self, min, max)` for `min <= max` -/
+def clamp (x lo hi : F64) : F64 := if x.lt lo then lo else if hi.lt x then hi else x
+/-- `f64::round`: half away from zero -/
+def round : F64 → F64
+  | .fin a b => if b = 0 then .fin a b else
+      if a ≥ 0 then .fin ((2 * a + b) / (2 * b)) 1 else .fin (-((2 * (-a) + b) / (2 * b))) 1
+  | x => x
+/-- `x as usize`: towards zero, saturating, `NaN` gives 0 -/
+def toUsize : F64 → Nat
+  | .fin a b => if a ≤ 0 ∨ b = 0 then 0 else if a.toNat / b < U then a.toNat / b else U - 1
+  | .pinf => U - 1
+  | _ => 0
+end F64
 
 /-- `x.round()` for the non-negative rational `p / q`, `q > 0`: half away from zero -/
 def roundHalfAway (p q : Nat) : Nat := (2 * p + q) / (2 * q)
 
-/-- `(((major_remain as f64) * flex / flex_total).round() as usize).min(major_remain)`;
-a zero denominator is `x / 0.0`: `+inf` (cast saturates) for `x > 0`, `NaN` (cast gives 0) for `x = 0` -/
-def childMajorMax (remain : Nat) (flex total : Q) : Nat :=
-  let p := remain * flex.num * total.den
-  let q := flex.den * total.num
-  if q = 0 then (if p = 0 then 0 else remain) else Nat.min (roundHalfAway p q) remain
+/-- `(((major_remain as f64) * flex / flex_total).round() as usize).min(major_remain)` -/
+def childMajorMax (remain : Nat) (flex total : F64) : Nat :=
+  Nat.min (((F64.ofNat remain).mul flex).div total).round.toUsize remain
 
-/-- a flex factor as it may come out of a JSON document -/
-inductive JFactor where
-  | finite (neg : Bool) (q : Q)
-  | nonFinite
-  deriving Repr, DecidableEq
-
+/-- `Flex::push_child_ext`: `flex.and_then(|flex| (flex > 0.0).then_some(flex))` — keeps `+inf` -/
+def apiFilter (f : F64) : Option F64 := if f.gt0 then some f else none
 /-- `Flex::from_json_value`: `.and_then(|flex| (flex.is_finite() && flex > 0.0).then_some(flex))` -/
-def JFactor.filter : JFactor → Option Q
-  | .finite false q => if q.pos then some q else none
-  | .finite true _ => none
-  | .nonFinite => none
+def jsonFilter (f : F64) : Option F64 := if f.isFinite && f.gt0 then some f else none
+
+/-- `ScrollBar::render`: thumb `(size, offset)` for a layout extent `major ≥ 1`:
+`size = (major * visible).clamp(1.0, major).round()`, `offset = ((major - size) * position.offset).round()`,
+both cast with `as usize` -/
+def thumb (major : Nat) (visible offset : F64) : Nat × Nat :=
+  let m := F64.ofNat major
+  let sz := (((m.mul visible).clamp (F64.ofNat 1) m)).round
+  let off := ((m.sub sz).mul offset).round
+  (sz.toUsize, off.toUsize)
 
 /-! ## text cells (`Cell::layout`) -/
 
@@ -265,7 +337,7 @@ inductive V where
   | tag (child : V)
   | dyn (thr : Nat) (a b : V)                          -- `Dynamic` whose build picks `a` iff `ct.max.w > thr`
 inductive Child where
-  | mk (flex : Option Q) (align : Align) (face : Bool) (view : V)
+  | mk (flex : Option F64) (align : Align) (face : Bool) (view : V)
 end
 
 /-- layout tree: `Layout { pos, size, data }` and the children in order -/
@@ -319,12 +391,12 @@ def spaces (j : Justify) (unused n : Nat) : Except Panic (Nat × Nat) :=
 structure P1 where
   nonFlex : Nat
   minor : Nat
-  total : Q
+  total : F64
 
 /-- accumulator of the second loop -/
 structure P2 where
   remain : Nat
-  total : Q
+  total : F64
   flexed : Nat
   minor : Nat
 
@@ -370,12 +442,12 @@ def V.layout (ctx : Ctx) : V → Ct → Except Panic LT
   | .optNone, _ => .ok LT.default
   | .flex dir j cs, ct =>
     let ctl := ct.loosen
-    match phase1 ctx dir ctl cs ⟨0, dir.minorS ct.min, Q.zero⟩ with
+    match phase1 ctx dir ctl cs ⟨0, dir.minorS ct.min, F64.zero⟩ with
     | .error e => .error e
     | .ok (ts1, a1) =>
       let remain := dir.majorS ct.max - a1.nonFlex
       let r2 : Except Panic (List LT × P2) :=
-        if remain > 0 ∧ a1.total.pos then phase2 ctx dir ctl cs ts1 ⟨remain, a1.total, 0, a1.minor⟩
+        if remain > 0 ∧ a1.total.gt0 then phase2 ctx dir ctl cs ts1 ⟨remain, a1.total, 0, a1.minor⟩
         else .ok (ts1, ⟨remain, a1.total, 0, a1.minor⟩)
       match r2 with
       | .error e => .error e
@@ -604,11 +676,16 @@ open SurfModel.Proto
 def showPanic : Panic → String
   | .overflow => "panic" | .clampMinGtMax => "panic" | .expectFailed => "panic" | .divZero => "panic"
 
-partial def showLT : LT → String
-  | .node p s _ kids =>
-    s!"({p.row} {p.col} {s.h} {s.w}" ++ String.join (kids.map fun k => " " ++ showLT k) ++ ")"
+/-- `Layout::data`: none, the view a `Dynamic` built (first / second), a tag or cached view -/
+def showData : Nat → String
+  | 0 => "-" | 1 => "a" | 2 => "b" | _ => "t"
 
-def showShape (s : Shape) : String := s!"{s.start},{s.end_},{s.width},{s.height},{s.rs},{s.cs}"
+partial def showLT : LT → String
+  | .node p s d kids =>
+    s!"({p.row} {p.col} {s.h} {s.w} {showData d}" ++ String.join (kids.map fun k => " " ++ showLT k) ++ ")"
+
+/-- the fields that determine the cells of the window (`end` is redundant) -/
+def showShape (s : Shape) : String := s!"{s.start},{s.width},{s.height},{s.rs},{s.cs}"
 
 def parseAxis : String → Option Axis
   | "h" => some .hor | "v" => some .ver | _ => none
@@ -619,18 +696,27 @@ def parseAlign (s : String) : Option Align :=
   match s with
   | "s" => some .start | "c" => some .center | "e" => some .end_ | "x" => some .expand | "k" => some .shrink
   | _ => if s.startsWith "o" then (s.drop 1).toString.toInt?.map .offset else none
-def parseQ (s : String) : Option Q :=
-  match s.splitOn "/" with
-  | [a, b] => do pure ⟨← a.toNat?, ← b.toNat?⟩
-  | _ => none
-/-- `-` none, `a/b` positive factor, `j-a/b` / `ja/b` / `jx` factors from JSON before the filter -/
-def parseFactor (s : String) : Option (Option Q) :=
+/-- `a/b`, `-a/b`, `inf`, `-inf`, `nan`, `big` (= `1e308`: finite, positive, far off the grid) -/
+def parseF64 (s : String) : Option F64 :=
+  if s == "inf" then some .pinf
+  else if s == "-inf" then some .ninf
+  else if s == "nan" then some .nan
+  else if s == "big" then some (.fin (10 ^ 308) 1)
+  else
+    let (neg, body) := if s.startsWith "-" then (true, (s.drop 1).toString) else (false, s)
+    match body.splitOn "/" with
+    | [a, b] => do
+      let a ← a.toNat?
+      let b ← b.toNat?
+      if b = 0 then none else pure (.fin (if neg then -(a : Int) else (a : Int)) b)
+    | _ => none
+/-- `-` no factor; `<v>` a factor stored as is (`FlexChild::flex`, or an already filtered positive one);
+`a<v>` through the filter of `push_child_ext`; `j<v>` through the filter of `from_json_value` -/
+def parseFactor (s : String) : Option (Option F64) :=
   if s == "-" then some none
-  else if s == "big" then some (some ⟨10 ^ 308, 1⟩)      -- `1e308`: finite, positive, far off the grid
-  else if s == "jx" then some (JFactor.filter .nonFinite)
-  else if s.startsWith "j-" then (parseQ (s.drop 2).toString).map fun q => JFactor.filter (.finite true q)
-  else if s.startsWith "j" then (parseQ (s.drop 1).toString).map fun q => JFactor.filter (.finite false q)
-  else (parseQ s).map some
+  else if s.startsWith "a" then (parseF64 (s.drop 1).toString).map apiFilter
+  else if s.startsWith "j" then (parseF64 (s.drop 1).toString).map jsonFilter
+  else (parseF64 s).map some
 def parseCh (s : String) : Option Ch :=
   match s with
   | "nl" => some .nl | "cr" => some .cr | "tab" => some .tab
@@ -719,6 +805,8 @@ def showPath (l : List (Pos × Size)) : String :=
 * `layout <glyphs 0|1> <ppc h> <ppc w> <min h> <min w> <max h> <max w> <tree…>` → layout tree or `panic`
 * `render <glyphs> <ppch> <ppcw> <minh> <minw> <maxh> <maxw> <shape: start,end,width,height,rs,cs> <tree…>`
   → the shapes handed to the probe leaves, in call order (`-` if none), `panic`, `invalid-layout`
+* `bar <major> <n> <visible> <offset>` → the first `min major n` cells of a scroll bar of layout extent
+  `major`: `1` thumb, `0` track (`ScrollBar::render`, repaired: `index >= offset.saturating_add(size)`)
 * `path <glyphs> <ppch> <ppcw> <minh> <minw> <maxh> <maxw> <row> <col> <tree…>` → `find_path` chain -/
 def handle : List String → String
   | "layout" :: g :: ph :: pw :: a :: b :: c :: d :: tree =>
@@ -745,6 +833,14 @@ def handle : List String → String
       | .error e => showPanic e
       | .ok t => showPath (t.findPath ⟨row, col⟩)
     | _, _, _, _, _, _, _, _, _ => "bad-op"
+  | ["bar", major, n, vis, off] =>
+    match major.toNat?, n.toNat?, parseF64 vis, parseF64 off with
+    | some major, some n, some vis, some off =>
+      if major = 0 then "-" else
+      let (size, o) := thumb major vis off
+      let cells := (List.range (Nat.min major n)).map fun i => if i < o || i ≥ satAdd o size then '0' else '1'
+      if cells.isEmpty then "-" else String.ofList cells
+    | _, _, _, _ => "bad-op"
   | _ => "bad-op"
 
 end Proto
